@@ -364,15 +364,15 @@ fn judge(c: &Case, a: &TestAsset, o: &Outcome) -> Verdict {
         let cls = url_class(a, &r.uri, &r.method);
         seen.push(cls);
         *v.counters.entry(format!("requests:{cls}")).or_insert(0) += 1;
-        let remote_only = a.xmp_url.is_some() && !a.embedded;
         let allowed = match cls {
-            "remote-manifest" => c.cfg.rmf && remote_only,
+            // the URL is the asset's own XMP provenance URL and remote fetching is switched on
+            "remote-manifest" => c.cfg.rmf,
             "ocsp" => c.cfg.ocsp || (is_ingredient_op && c.cfg.csf > 0),
             "tsa" => c.cfg.tsa,
             "did-web" => false,
-            // fixtures: something must be on, and a GET to an unknown URL can only be a remote-manifest
-            // fetch (needs rmf + no embedded store) or an OCSP request (needs an OCSP setting)
-            "fixture-get" => (c.cfg.rmf && !a.embedded) || c.cfg.ocsp || (is_ingredient_op && c.cfg.csf > 0),
+            // fixtures: a GET to a URL the harness cannot derive can only be a remote-manifest fetch or an
+            // OCSP request, so one of those settings must be on
+            "fixture-get" => c.cfg.rmf || c.cfg.ocsp || (is_ingredient_op && c.cfg.csf > 0),
             "fixture-post" => c.cfg.tsa,
             _ => false,
         };
@@ -426,10 +426,14 @@ fn judge(c: &Case, a: &TestAsset, o: &Outcome) -> Verdict {
 // ------------------------------------------------------------------------------------------------
 // second observer: strace over a child that uses the DEFAULT resolvers
 
-fn child_main(assets_list: &[TestAsset], positive_port: Option<u16>) {
+fn child_main(assets_list: &[TestAsset], positive_port: Option<u16>, group: &str) {
     // every enabling setting off, no custom resolver
     let off = Cfg::all_off();
     for a in assets_list {
+        // the did:web fixtures are traced separately so that their (known) lookups keep their own signature
+        if (a.kind == "fixture-cawg-did-web") != (group == "didweb") {
+            continue;
+        }
         for asynch in [false, true] {
             let Ok(ctx) = Context::new().with_settings(off.settings().as_str()) else { continue };
             let fmt = a.format.clone();
@@ -465,6 +469,11 @@ fn child_main(assets_list: &[TestAsset], positive_port: Option<u16>) {
 }
 
 fn strace_observer(run: &mut Run) {
+    strace_group(run, "main");
+    strace_group(run, "didweb");
+}
+
+fn strace_group(run: &mut Run, group: &str) {
     let exe = match std::env::current_exe() {
         Ok(e) => e,
         Err(e) => return run.inconclusive(format!("strace observer: current_exe: {e}")),
@@ -496,6 +505,7 @@ fn strace_observer(run: &mut Run) {
         .arg(&exe)
         .arg("--strace-child")
         .arg(port.map(|p| p.to_string()).unwrap_or_else(|| "0".into()))
+        .arg(group)
         .env("VERIF_JOBS", "1")
         .output();
     let out = match out {
@@ -547,17 +557,23 @@ fn strace_observer(run: &mut Run) {
     run.count("strace_inet_calls", inet_calls);
     run.count("strace_loopback_calls", loopback_calls);
     run.count("strace_unix_calls", unix_calls);
-    run.engine("strace", true, json!({"child_operations": child_lines, "trace_lines": text.lines().count(), "positive_control_seen": positive_seen, "child_exit": out.status.code()}));
+    run.engine(&format!("strace:{group}"), true, json!({"child_operations": child_lines, "trace_lines": text.lines().count(), "positive_control_seen": positive_seen, "child_exit": out.status.code()}));
     if child_lines == 0 {
         return run.inconclusive("strace observer: the child performed no operation");
     }
     if port.is_some() && !positive_seen {
         return run.inconclusive("strace observer: positive control (fetch from a loopback listener with remote_manifest_fetch=true) did not appear in the trace — observer blind, verdict withheld");
     }
-    run.nontrivial(format!("strace|all-settings-off|default-resolvers|child_ops={}|non-loopback-inet-calls={}", child_lines.min(1000) / 10 * 10, offenders.len()));
-    run.nontrivial("strace|positive-control|loopback-connect-seen".to_string());
+    run.nontrivial(format!("strace:{group}|all-settings-off|default-resolvers|child_ops>={}|dns-or-non-loopback-inet-calls={}", child_lines / 10 * 10, offenders.len().min(3)));
+    run.nontrivial(format!("strace:{group}|positive-control|loopback-connect-seen"));
+    run.sample(&format!("strace:{group}"), 1, json!({"child_operations": child_lines, "offending_lines": offenders, "inet_calls": inet_calls, "loopback_calls": loopback_calls, "unix_calls": unix_calls}));
     if !offenders.is_empty() {
-        run.violation("strace|all-settings-off|non-loopback-connect", &format!("network syscalls to non-loopback inet addresses (or DNS) with every enabling setting off: {:?}", offenders), json!({"lines": offenders}));
+        if group == "didweb" {
+            // same cause as the recording observer's did:web finding (default resolver => DNS lookup / connect)
+            run.violation("read|did-web-fetch|no-network-setting-asks-for-it", &format!("strace: reading the did:web CAWG fixtures with every enabling setting off performs DNS/connect calls: {:?}", offenders), json!({"observer": "strace", "lines": offenders}));
+        } else {
+            run.violation("strace|all-settings-off|non-loopback-connect", &format!("network syscalls to non-loopback inet addresses (or DNS) with every enabling setting off: {:?}", offenders), json!({"lines": offenders}));
+        }
     }
 }
 
@@ -569,7 +585,8 @@ fn main() {
         let port: Option<u16> = std::env::args().nth(i + 1).and_then(|p| p.parse().ok()).filter(|p| *p != 0);
         let mut sink = Run::from_args("C28", "fault_enumeration");
         let list = build_assets(&mut sink);
-        child_main(&list, port);
+        let group = std::env::args().nth(i + 2).unwrap_or_else(|| "main".into());
+        child_main(&list, port, &group);
         std::process::exit(0);
     }
 
